@@ -1,6 +1,7 @@
 import DEvo.Props.C08
 import DEvo.Mut.Steps
 import DEvo.Mut.Env
+import DEvo.Generated.Tables
 
 /-! # C04 — all upgrade paths converge: fresh install, stepwise, direct
 
@@ -114,5 +115,10 @@ theorem C04_cex_relabel_to_other_label :
     (direct sqliteEnv {} ⟨"old", "old", true⟩
         [[.renameAppLabel "old" "lib" none none], [.deleteModel "M"]] sigRelabel).toOption.isSome = true := by
   decide
+
+/-- direct and stepwise upgrades optimise different batches of the same definitions; both keep every
+mutation the optimiser did not mark only if its set of removed mutations goes by identity
+(`C03_filter_by_identity`), which is what the source says (read by the translator on every run) -/
+theorem C04_source_hash_identity : DEvo.Generated.mutationHashById = true := by decide
 
 end DEvo.Props.C04
